@@ -108,7 +108,7 @@ def main():
             cls = "swapped"
         return S.make_space(api, grid, *KA[kind], **opts), opts, cls
 
-    def compare(cid, descr, build, x_complex, mech_cls):
+    def compare(cid, descr, build, x_complex, mech_cls, expect_backend=True):
         """build(assembler) -> boundary operator."""
         with ctx.guard(cid, "fmm:%s" % mech_cls, allow=S.ALLOWED_REJECTIONS + ("empty selection",)):
             ncalls = len(exafmm.CALLS)
@@ -131,7 +131,7 @@ def main():
             ctx.note_max("worst_rel_dev", dev)
             ctx.diff("y:%s" % cid, yf, scale=float(np.abs(yd).max()) if yd.size else 0.0)
             ctx.case(cid, dict(descr, n=int(n), rel_dev=dev, backend_evaluations=len(exafmm.CALLS) - ncalls))
-            if len(exafmm.CALLS) == ncalls:
+            if expect_backend and len(exafmm.CALLS) == ncalls:
                 ctx.violation("fmm:backend_not_called:" + mech_cls, "%s: the far-field evaluator was never invoked" % cid, cid)
             if not np.all(np.isfinite(yf)) or dev > TOL:
                 ctx.violation("fmm:mismatch:" + mech_cls, "%s: ||fmm(x) - dense(x)|| / ||.|| = %.3e" % (cid, dev), cid, data=descr)
@@ -207,6 +207,35 @@ def main():
 
                         compare(cid, descr, build, x_complex=True, mech_cls="maxwell:%s" % variant)
     ctx.lap("boundary_operators")
+
+    # ------------------------------------------------------------------ fmm.dense_evaluation = True: the interface sums the point
+    # sources itself (bempp_cl.api.fmm.helpers.dense_interaction_evaluator) instead of calling the backend - a second
+    # "exact summation of the same point sources", with the same near-field correction
+    if not ctx.worker:
+        GP.quadrature.regular = 4
+        GP.fmm.near_field_representation = "evaluate"
+        GP.fmm.dense_evaluation = True
+        api.clear_fmm_cache()
+        try:
+            for fam, op, tk_, sk_, k in [("laplace", "single_layer", "DP0", "P1", None), ("helmholtz", "double_layer", "P1", "P1", 1.3 + 0.4j)] + \
+                    ([] if ctx.quick else [("modified_helmholtz", "adjoint_double_layer", "P1", "P1", 0.9), ("laplace", "hypersingular", "P1", "P1", None)]):
+                for gname, g2name in (("octa_r1", None), ("octa_r1", "cube")):
+                    cid = "dense_evaluation:%s%s:%s.%s" % (gname, "|" + g2name if g2name else "", fam, op)
+                    if not ctx.want(cid):
+                        continue
+                    descr = {"grids": [gname, g2name], "op": fam + "." + op, "k": k, "fmm.dense_evaluation": True}
+
+                    def build(assembler, _f=fam, _o=op, _k=k, _tk=tk_, _sk=sk_, _g=gname, _g2=g2name, _cid=cid):
+                        r = ctx.rng(_cid, "spaces")
+                        trial, _, _ = spaces_for(_g, _tk, "whole", r)
+                        test, _, _ = spaces_for(_g2 or _g, _sk, "whole", r)
+                        return O.boundary(api, _f, _o, trial, test, test, _k, assembler=assembler)
+
+                    compare(cid, descr, build, x_complex=True, mech_cls="scalar:dense_evaluation", expect_backend=False)
+        finally:
+            GP.fmm.dense_evaluation = False
+            api.clear_fmm_cache()
+        ctx.lap("dense_evaluation")
 
     # ------------------------------------------------------------------ dual-grid spaces (dense reference through the barycentric grid)
     GP.quadrature.regular = 4
